@@ -168,6 +168,18 @@ theorem readers_text :
     nVariablesTextG = "return len(self.variables)"
     ∧ getBoundsTextG = "return [(v.lb, v.ub) for v in self.variables]" := by decide
 
+/-- the read-only accessors return the fields the editing scripts write (and `constraints` a COPY of the list); the two small
+    predicates read `_constraints` / `variables` only -/
+theorem accessors_text :
+    problemReadersG.lookup "objective" = some "return self._objective" ∧
+    problemReadersG.lookup "sense" = some "return self._sense" ∧
+    problemReadersG.lookup "constraints" = some "return self._constraints.copy()" ∧
+    problemReadersG.lookup "n_constraints" = some "return len(self._constraints)" ∧
+    problemReadersG.lookup "_has_equality_constraints" = some "return any((c.sense == '==' for c in self._constraints))" ∧
+    problemReadersG.lookup "_only_simple_bounds"
+      = some "if not self._constraints: return True; return all((is_simple_bound(c, self.variables) for c in self._constraints))" := by
+  refine ⟨rfl, rfl, rfl, rfl, rfl, rfl⟩
+
 /-- all ties of this file, for the audit -/
 theorem edits_are_source (ctx : Ctx E) (s : PState E) :
     (∀ e, step ctx s (.minimize e) = ((exec minimizeG (.expr e) s).s, .unit))
